@@ -58,6 +58,7 @@ def strategy_impl(draw, tier):
         "reverse_axes": draw(st.booleans()),
         "flag_style": draw(st.sampled_from(["python", "python", "numpy", "int"])),   # type of the reverse flags / face numbers in the links
         "via_2d": draw(st.booleans()),
+        "order_v": draw(st.one_of(st.none(), gen.permutations_of(labels))),   # the partner may be stored in another dimension order
         "carry_coords": draw(st.booleans()),   # the inputs carry the dataset's coordinates (face labels included) or none
     }
 
@@ -134,9 +135,9 @@ def make_grid(case):
                 autoparse_metadata=False, periodic=False, **kw)
 
 
-def dims_for(case, ydim, xdim):
+def dims_for(case, ydim, xdim, which="order"):
     base = ["face"] + [e[0] for e in case["extra"]] + [ydim, xdim]
-    order = [{"Y": ydim, "X": xdim}.get(l, l) for l in case["order"]]
+    order = [{"Y": ydim, "X": xdim}.get(l, l) for l in (case.get(which) or case["order"])]
     return base, order
 
 
@@ -170,7 +171,7 @@ def check(case, ctx):
         model_arrs = {"S": arrs["S"]}
     else:
         ub, uo = dims_for(case, "yc", "xl")
-        vb, vo = dims_for(case, "yl", "xc")
+        vb, vo = dims_for(case, "yl", "xc", "order_v")
         uda = xr.DataArray(arrs["U"], dims=ub).transpose(*uo)
         vda = xr.DataArray(arrs["V"], dims=vb).transpose(*vo)
         vec = case["kind"]
